@@ -7,6 +7,7 @@ package harness
 // stanza.NextPacket through readers that split the bytes in generated ways.
 
 import (
+	"regexp"
 	"encoding/xml"
 	"fmt"
 	"io"
@@ -26,6 +27,54 @@ type c02Child struct {
 	Name string     `json:"n,omitempty"`
 	NS   string     `json:"ns,omitempty"`
 	Kids []c02Child `json:"c,omitempty"`
+	// literal only: Ins > 0 puts InsWhat (an element nobody registered, a delay stamp, a comment; no text, which would
+	// change the value of elements with typed content such as <priority/>) right
+	// behind the Ins-th start tag (cyclically) inside the known extension
+	Ins     int    `json:"ins,omitempty"`
+	InsWhat string `json:"insw,omitempty"`
+}
+
+var c02Inserts = []string{
+	"<x xmlns='urn:x:unknown'><y a='1'>z</y></x>", "<delay xmlns='urn:xmpp:delay' stamp='2002-09-10T23:08:25Z'/>", "<unknown/>",
+	"<!-- c -->", "@same", "@same", "<forwarded xmlns='urn:xmpp:forward:0'><message xmlns='jabber:client' id='inner'/></forwarded>",
+}
+
+// c02Insert puts what behind the n-th (cyclically) start tag of the literal; literals with CDATA sections or comments
+// are left alone (a '>' inside them is not the end of a tag).
+func c02Insert(lit string, n int, what string) string {
+	if n <= 0 || strings.Contains(lit, "<![CDATA[") || strings.Contains(lit, "<!--") {
+		return lit
+	}
+	var cands []int
+	for i := 0; i < len(lit); i++ {
+		if lit[i] != '<' || i+1 >= len(lit) || lit[i+1] == '/' {
+			continue
+		}
+		j := strings.IndexByte(lit[i:], '>')
+		if j < 0 {
+			break
+		}
+		if lit[i+j-1] != '/' {
+			cands = append(cands, i+j+1)
+		}
+		i += j
+	}
+	if len(cands) == 0 {
+		return lit
+	}
+	at := cands[(n-1)%len(cands)]
+	if what == "@same" {
+		// an element named like the first child of that element, but in a namespace nobody knows
+		what = "<x xmlns='urn:x:unknown'/>"
+		if at+1 < len(lit) && lit[at] == '<' && lit[at+1] != '/' {
+			end := at + 1
+			for end < len(lit) && lit[end] != ' ' && lit[end] != '>' && lit[end] != '/' {
+				end++
+			}
+			what = "<" + lit[at+1:end] + " xmlns='urn:x:unknown'><y/></" + lit[at+1:end] + ">"
+		}
+	}
+	return lit[:at] + what + lit[at:]
 }
 
 type c02Elem struct {
@@ -98,11 +147,24 @@ var c02MsgLiterals = []string{
 	`<html xmlns='http://jabber.org/protocol/xhtml-im'><body xmlns='http://www.w3.org/1999/xhtml'><p>hi<br/></p></body></html>`,
 	`<error type='cancel'><item-not-found xmlns='urn:ietf:params:xml:ns:xmpp-stanzas'/></error>`,
 	`<body><![CDATA[<message>not an element</message>]]></body>`,
+	`<delegation xmlns='urn:xmpp:delegation:1'><forwarded xmlns='urn:xmpp:forward:0'><delay xmlns='urn:xmpp:delay' stamp='2002-09-10T23:08:25Z'/><message xmlns='jabber:client' id='inner' to='x@y'><body>b</body></message></forwarded></delegation>`,
+	`<event xmlns='http://jabber.org/protocol/pubsub#event'><items node='n'><item id='i1' publisher='p@q'><entry xmlns='http://www.w3.org/2005/Atom'><title>t</title></entry></item><retract id='i2'/></items></event>`,
+	`<event xmlns='http://jabber.org/protocol/pubsub#event'><collection node='c'><associate node='n1'/></collection></event>`,
+	`<event xmlns='http://jabber.org/protocol/pubsub#event'><configuration node='n'><x xmlns='jabber:x:data' type='result'><field var='FORM_TYPE' type='hidden'><value>http://jabber.org/protocol/pubsub#node_config</value></field></x></configuration></event>`,
+	`<event xmlns='http://jabber.org/protocol/pubsub#event'><purge node='n'/></event>`,
+	`<event xmlns='http://jabber.org/protocol/pubsub#event'><delete node='n'><redirect uri='xmpp:a@b?;node=m'/></delete></event>`,
+	`<event xmlns='http://jabber.org/protocol/pubsub#event'><subscription node='n' jid='a@b' subscription='subscribed'/></event>`,
+	`<markable xmlns='urn:xmpp:chat-markers:0'/>`, `<received xmlns='urn:xmpp:chat-markers:0' id='m1'/>`,
+	`<received xmlns='urn:xmpp:receipts' id='m1'/>`, `<no-store xmlns='urn:xmpp:hints'/>`,
+	`<composing xmlns='http://jabber.org/protocol/chatstates'/>`,
 }
 var c02PresLiterals = []string{
 	`<show>away</show>`, `<status>gone</status>`, `<priority>5</priority>`,
 	`<x xmlns='http://jabber.org/protocol/muc'><history maxstanzas='3'/></x>`,
 	`<c xmlns='http://jabber.org/protocol/caps' hash='sha-1' node='n' ver='v'/>`,
+	`<x xmlns='http://jabber.org/protocol/muc'><password>pw</password><history maxchars='10' maxstanzas='3' seconds='60' since='2002-09-10T23:08:25Z'/></x>`,
+	`<x xmlns='http://jabber.org/protocol/muc#user'><item affiliation='member' role='participant'/><status code='110'/></x>`,
+	`<error type='wait'><resource-constraint xmlns='urn:ietf:params:xml:ns:xmpp-stanzas'/><text xmlns='urn:ietf:params:xml:ns:xmpp-stanzas'>later</text></error>`,
 }
 var c02IQLiterals = []string{
 	`<query xmlns='jabber:iq:roster'><item jid='a@b'><group>g</group></item></query>`,
@@ -110,6 +172,20 @@ var c02IQLiterals = []string{
 	`<bind xmlns='urn:ietf:params:xml:ns:xmpp-bind'><jid>a@b/c</jid></bind>`,
 	`<query xmlns='jabber:iq:version'><name>n</name></query>`,
 	`<error type='cancel'><service-unavailable xmlns='urn:ietf:params:xml:ns:xmpp-stanzas'/></error>`,
+	`<delegation xmlns='urn:xmpp:delegation:1'><forwarded xmlns='urn:xmpp:forward:0'><iq xmlns='jabber:client' type='get' id='inner' from='a@b/c'><query xmlns='jabber:iq:version'/></iq></forwarded></delegation>`,
+	`<delegation xmlns='urn:xmpp:delegation:1'><forwarded xmlns='urn:xmpp:forward:0'><delay xmlns='urn:xmpp:delay' stamp='2002-09-10T23:08:25Z'/><presence xmlns='jabber:client' id='inner'><show>dnd</show></presence></forwarded></delegation>`,
+	`<command xmlns='http://jabber.org/protocol/commands' node='list' sessionid='s1' status='executing'><actions execute='next'><next/><prev/></actions><note type='info'>n</note><x xmlns='jabber:x:data' type='form'><title>t</title><field var='a' type='list-single' label='l'><value>1</value><option label='o'><value>1</value></option></field></x></command>`,
+	`<pubsub xmlns='http://jabber.org/protocol/pubsub'><publish node='n'><item id='i'><x xmlns='urn:x:payload'>p</x></item></publish></pubsub>`,
+	`<pubsub xmlns='http://jabber.org/protocol/pubsub'><subscription node='n' jid='a@b' subid='s' subscription='subscribed'/></pubsub>`,
+	`<pubsub xmlns='http://jabber.org/protocol/pubsub#owner'><configure node='n'><x xmlns='jabber:x:data' type='form'><field var='pubsub#title'><value>t</value></field></x></configure></pubsub>`,
+	`<pubsub xmlns='http://jabber.org/protocol/pubsub#owner'><affiliations node='n'><affiliation jid='a@b' affiliation='owner'/></affiliations></pubsub>`,
+	`<pubsub xmlns='http://jabber.org/protocol/pubsub#owner'><subscriptions node='n'><subscription jid='a@b' subscription='subscribed'/></subscriptions></pubsub>`,
+	`<pubsub xmlns='http://jabber.org/protocol/pubsub#owner'><delete node='n'><redirect uri='xmpp:a@b'/></delete></pubsub>`,
+	`<pubsub xmlns='http://jabber.org/protocol/pubsub#owner'><purge node='n'/></pubsub>`,
+	`<pubsub xmlns='http://jabber.org/protocol/pubsub#owner'><default><x xmlns='jabber:x:data' type='form'/></default></pubsub>`,
+	`<query xmlns='http://jabber.org/protocol/disco#items' node='n'><item jid='a@b' node='m' name='x'/></query>`,
+	`<set xmlns='urn:xmpp:iot:control' xml:lang='en'><boolean name='b' value='true'/><int name='i' value='3'/></set>`,
+	`<session xmlns='urn:ietf:params:xml:ns:xmpp-session'/>`,
 }
 var c02FeatureLiterals = []string{
 	`<starttls xmlns='urn:ietf:params:xml:ns:xmpp-tls'><required/></starttls>`,
@@ -151,7 +227,12 @@ func genC02Kids(t *rapid.T, kind string, depth int, nested *bool) []c02Child {
 					lits = c02FeatureLiterals
 				}
 				if len(lits) > 0 {
-					out = append(out, c02Child{Kind: "literal", Text: rapid.SampledFrom(lits).Draw(t, "literal")})
+					lit := c02Child{Kind: "literal", Text: rapid.SampledFrom(lits).Draw(t, "literal")}
+					if rapid.IntRange(0, 2).Draw(t, "insert") == 0 {
+						lit.Ins = rapid.IntRange(1, 12).Draw(t, "insAt")
+						lit.InsWhat = rapid.SampledFrom(c02Inserts).Draw(t, "insWhat")
+					}
+					out = append(out, lit)
 					continue
 				}
 			}
@@ -301,7 +382,7 @@ func (s *c02Ser) kids(kids []c02Child, encl string, enclNS string) {
 		case "comment":
 			s.sb.WriteString("<!--" + k.Text + "-->")
 		case "literal":
-			s.sb.WriteString(k.Text)
+			s.sb.WriteString(c02Insert(k.Text, k.Ins, k.InsWhat))
 		case "elem":
 			s.sb.WriteString("<" + k.Name)
 			if k.NS != "" {
@@ -571,6 +652,20 @@ func (c *c02Case) effective() []c02Elem {
 	return out
 }
 
+// c02ErrClass reduces an error text to its shape (names and numbers removed), so that different root causes get
+// different class keys.
+func c02ErrClass(err error) string {
+	t := err.Error()
+	t = regexp.MustCompile("<[^>]{13,}>").ReplaceAllString(t, "<>") // short element names are kept: they tell the sites apart
+	t = regexp.MustCompile("[a-z0-9#:/.-]*(:|/)[a-z0-9#:/.-]+").ReplaceAllString(t, "NS")
+	t = regexp.MustCompile("[0-9]+").ReplaceAllString(t, "N")
+	t = regexp.MustCompile("[^A-Za-z<>*().]+").ReplaceAllString(t, "-")
+	if len(t) > 90 {
+		t = t[:90]
+	}
+	return strings.Trim(t, "-")
+}
+
 func runC02(c c02Case) vh.Result {
 	var res vh.Result
 	data, ends := c.serialise()
@@ -624,6 +719,9 @@ func runC02(c c02Case) vh.Result {
 				key := "packet-missing"
 				if e.Kind == "message" || e.Kind == "presence" {
 					key += ":" + e.Kind
+				}
+				if r.err != nil && !strings.Contains(r.err.Error(), "EOF") {
+					key += ":" + c02ErrClass(r.err)
 				}
 				res.Fail(key, "%s: element %d (%s id=%q) not returned: got %d packets then error %v; stream=%s", how, i, e.Kind, e.Id, len(r.packets), r.err, trunc(data, 1200))
 				return
@@ -737,7 +835,7 @@ func runC02(c c02Case) vh.Result {
 
 var c02 = vh.Define(&vh.Def[c02Case]{
 	Property: "C02", Name: "stream",
-	Rule: "streams generated from a grammar: client / component / WebSocket header, 0-8 top-level elements (message, presence, iq with known extensions, unknown extensions, text, CDATA, comments and descendants named like the enclosing stanza in the same namespace at depth 1-4; stream features/error, SASL success/failure, every stream-management element, handshake), optional unknown-namespace / unknown-name element or stream close at the end; in 0.5 % of the cases 500-12000 plain stanzas (500-4000 in the quick tier) precede them on the same stream (64 KiB to beyond 1 MiB already consumed by the decoder); own serialiser varying quoting, prefix vs default namespace, self-closing tags and white space, recording where each top-level element ends; a segmentation (read sizes 1-64, weighted to 1-3); one third of the cases are corrupted (truncation at a generated offset, byte flip, insert, delete). Oracle: k-th NextPacket result has the kind and id/from/to/type (or h/previd) of the k-th element; unknown elements give an error at their index; same packets for every segmentation (reflect.DeepEqual); truncation returns exactly the elements that end before the cut and then an error; corrupted input never panics, never hangs (30 s watchdog) and ends in an error. non-trivial = >= 2 top-level elements and (nested same-name descendant, unknown child, a read size < 8, or a corruption)",
+	Rule: "streams generated from a grammar: client / component / WebSocket header, 0-8 top-level elements (message, presence, iq with known extensions (every registered payload with a hand-written decoder: commands, delegation / forwarded, pubsub events and owner requests, MUC, data forms ..., a third of them with an unregistered element, a delay stamp or a comment put behind one of their start tags), unknown extensions, text, CDATA, comments and descendants named like the enclosing stanza in the same namespace at depth 1-4; stream features/error, SASL success/failure, every stream-management element, handshake), optional unknown-namespace / unknown-name element or stream close at the end; in 0.5 % of the cases 500-12000 plain stanzas (500-4000 in the quick tier) precede them on the same stream (64 KiB to beyond 1 MiB already consumed by the decoder); own serialiser varying quoting, prefix vs default namespace, self-closing tags and white space, recording where each top-level element ends; a segmentation (read sizes 1-64, weighted to 1-3); one third of the cases are corrupted (truncation at a generated offset, byte flip, insert, delete). Oracle: k-th NextPacket result has the kind and id/from/to/type (or h/previd) of the k-th element; unknown elements give an error at their index; same packets for every segmentation (reflect.DeepEqual); truncation returns exactly the elements that end before the cut and then an error; corrupted input never panics, never hangs (30 s watchdog) and ends in an error. non-trivial = >= 2 top-level elements and (nested same-name descendant, unknown child, a read size < 8, or a corruption)",
 	Quick: 30000, Thorough: 3000000,
 	Gen: genC02, Run: runC02,
 })
